@@ -84,6 +84,14 @@ def eig_residuals(C, d, Q):
     return rec, orth, asc
 
 
+# minimised past findings, run first on every seed
+LSOLVE_CORPUS = [
+    # exactly singular (rank 5); elimination on doubles is left with a last pivot of rounding size, above EPSILON
+    ([[-4, 4, 3, -3, 3, 1], [-1, -4, 1, -3, -4, -4], [-1, 0, 3, 2, 0, 0], [0, 0, 2, 0, -4, 0], [0, 4, -4, -1, 4, 4], [1, -2, 1, 0, 3, -4]],
+     [1, 1, 0, 1, 5, -2]),
+]
+
+
 def run(ctx, drv):
     rng = ctx.rng
     ctx.nontrivial_rule = ("matrices of dimension 1-12: random dense, integer, diagonal, nearly singular, pivot-pattern (lsolve); symmetric "
@@ -94,25 +102,41 @@ def run(ctx, drv):
     def ask(line, fn):
         reqs.append(line); post.append(fn)
     n1 = 700 if ctx.quick() else 10000
-    for t in range(n1):
-        n = rng.randrange(1, 13) if t % 3 else rng.randrange(1, 5)
-        kind = rng.choice(["dense", "integer", "diagonal", "nearly-singular", "pivot-pattern", "integer"])
-        Amat = gen_matrix(rng, n, kind)
-        if kind == "integer" and rng.random() < 0.3 and n >= 2:
-            Amat[-1] = [a * 2 for a in Amat[0]]          # exactly singular
-        b = [float(rng.randrange(-5, 6)) if kind == "integer" else rng.uniform(-2, 2) for _ in range(n)]
+    for t in range(-len(LSOLVE_CORPUS), n1):
+        if t < 0:
+            kind = "integer"
+            Amat, b = [list(map(float, r)) for r in LSOLVE_CORPUS[t][0]], list(map(float, LSOLVE_CORPUS[t][1]))
+            n = len(b)
+        else:
+            n = rng.randrange(1, 13) if t % 3 else rng.randrange(1, 5)
+            kind = rng.choice(["dense", "integer", "diagonal", "nearly-singular", "pivot-pattern", "integer"])
+            Amat = gen_matrix(rng, n, kind)
+            if kind == "integer" and rng.random() < 0.3 and n >= 2:
+                Amat[-1] = [a * 2 for a in Amat[0]]          # exactly singular
+            b = [float(rng.randrange(-5, 6)) if kind == "integer" else rng.uniform(-2, 2) for _ in range(n)]
         inp = {"A": Amat, "b": b, "kind": kind}
         x = call_lsolve(Amat, b)
         obs = x if isinstance(x, str) else "x " + " ".join(wf(v) for v in x)
-        ask(f"lsolveF {mat_w(Amat, wf)} {wlist(b, wf)}", lambda g, obs=obs, inp=inp: None if g.strip() == obs.strip()
-            else ctx.disagree("lsolve Float instance (solution bit patterns / error kind)", inp, obs[:300], g[:300]))
+        singular = kind in ("integer", "diagonal") and solve_exact([[Fraction(v) for v in r] for r in Amat], [Fraction(v) for v in b]) is None
+
+        def after_float(g, obs=obs, inp=inp, x=x, singular=singular):
+            if g.strip() != obs.strip():
+                ctx.disagree("lsolve Float instance (solution bit patterns / error kind)", inp, obs[:300], g[:300])
+            if singular and not isinstance(x, str):
+                # the property wants singularity signalled.  Two different ways to get here: the pivot test is gone / wrong (the
+                # model's Float run of the pinned algorithm signals singularity, the implementation does not), or the algorithm
+                # itself, run on doubles, is left with a rounding-sized pivot above EPSILON (the model's Float run returns the
+                # same garbage): the latter is the recorded known finding, the former is always reported.
+                ctx.fail("singular-system-returns-a-result", inp, x, "singularity signalled", "_math.lsolve")
+                ctx.failures[-1]["input_class"] = ("rounding-leaves-a-pivot-above-EPSILON" if g.startswith("x") and g.strip() == obs.strip()
+                                                   else "pivot-test-does-not-fire")
+        ask(f"lsolveF {mat_w(Amat, wf)} {wlist(b, wf)}", after_float)
         # exact instance + oracle on integer systems
         if kind in ("integer", "diagonal"):
             FA = [[Fraction(v) for v in r] for r in Amat]
             exact = solve_exact(FA, [Fraction(v) for v in b])
             if exact is None:
-                if not isinstance(x, str):
-                    ctx.fail("singular-system-returns-a-result", inp, x, "singularity signalled", "_math.lsolve")
+                pass            # judged in after_float
             else:
                 if isinstance(x, str):
                     # refusing a well-conditioned integer system is a failure; tiny pivots of the code's own elimination are the documented refusal
